@@ -180,6 +180,7 @@ func (s *world) pendingSpot(t tstypes.SpotOrderType) (tstypes.SpotOrder, sdkmath
 }
 
 // create: wallet + escrow conserved, escrow = order amount, order stored for the owner
+//
 //vrf:cover created refused
 //vrf:bound limit order types (stop-loss, limit-sell, limit-buy), symbolic amount / price / wallet
 func H_Spot_Create() {
@@ -206,6 +207,7 @@ func H_Spot_Create() {
 }
 
 // update / cancel by someone else: refused, nothing changes; by the owner: cancel returns the full escrow
+//
 //vrf:cover other-refused owner-cancelled owner-updated
 //vrf:bound 1 pending order of any limit type; sender is the owner or someone else (symbolic); update or cancel (single and batch form)
 func H_Spot_UpdateCancel() {
@@ -250,6 +252,7 @@ func H_Spot_UpdateCancel() {
 
 // execution request from anyone: untouched unless the trigger condition holds; conserved on failure;
 // on success exactly the order amount is spent on the owner's behalf and the output goes to the owner
+//
 //vrf:cover skipped executed failed
 //vrf:bound 1 pending order of any limit type, arbitrary market prices (incl. absent), swap fails or succeeds; executor is not the owner
 func H_Spot_Execute() {
@@ -367,6 +370,7 @@ func H_Perp_Cancel() {
 
 // execution attempt by anyone, then a cancel by the owner: funds conserved throughout, and the owner
 // can still get rid of the order (cancel succeeds) after a failed execution
+//
 //vrf:cover skipped executed failed-then-cancelled
 func H_Perp_ExecuteThenCancel() {
 	s := setup()
@@ -405,6 +409,7 @@ func H_Perp_ExecuteThenCancel() {
 // A spot order of `owner` and a perpetual order of `other` are created through the real handlers (both get the
 // first id of their own counter) and then one of them is cancelled by its owner: the other order's escrow,
 // its owner's funds and its pending status are untouched.
+//
 //vrf:cover spot-cancelled perp-cancelled
 //vrf:bound 1 pending spot order + 1 pending perpetual order with the same numeric id, different owners; symbolic amounts
 func H_Isolation_SpotVsPerp() {
@@ -455,6 +460,7 @@ func H_Isolation_SpotVsPerp() {
 }
 
 // Two spot orders of different owners: cancelling one leaves the other's escrow alone.
+//
 //vrf:cover cancelled
 //vrf:bound 2 pending spot orders (consecutive ids), different owners
 func H_Isolation_SpotVsSpot() {
@@ -488,4 +494,87 @@ func H_Isolation_SpotVsSpot() {
 	vrf.Assert(s.w.BalOf(owner, atom).Equal(a1), "C20 isolation: the cancelling owner gets back exactly his own escrow")
 	vrf.Assert(s.total(other, tstypes.GetSpotOrderAddress(id2), atom).Equal(a2), "C20 isolation: the other owner's wallet + escrow is untouched")
 	vrf.Assert(s.w.BalOf(tstypes.GetSpotOrderAddress(id2), atom).Equal(a2), "C20 isolation: the other order's escrow still holds its amount")
+}
+
+// Two pending orders of different owners; the older one is cancelled and its owner places a new order: the new order
+// gets an id (hence an escrow account and a store record) of its own, so the other owner's pending order and escrow are
+// exactly as before, both owners can cancel, and each gets back exactly what he escrowed.
+//
+//vrf:cover done
+//vrf:bound 2 pending orders of one kind (spot or perpetual, symbolic) with consecutive ids and different owners, symbolic amounts; cancel of the older one, a new order by the same owner, then both cancels
+func H_Isolation_CancelThenCreate() {
+	s := setup()
+	perp := vrf.Bool("perpetualOrders")
+	a1, a2, a3, rate := vrf.Int("orderAmount"), vrf.Int("orderAmount2"), vrf.Int("orderAmount3"), vrf.Dec("orderPrice")
+	for _, a := range []sdkmath.Int{a1, a2, a3} {
+		vrf.Assume(a.IsPositive())
+	}
+	vrf.Assume(rate.IsPositive())
+	denom := atom
+	if perp {
+		denom = usdc
+	}
+	s.w.SetBal(owner, denom, a1.Add(a3))
+	s.w.SetBal(other, denom, a2)
+	mk := func(who sdk.AccAddress, amt sdkmath.Int) (uint64, error) {
+		if perp {
+			r, err := s.srv.CreatePerpetualOpenOrder(s.ctx, &tstypes.MsgCreatePerpetualOpenOrder{OwnerAddress: who.String(), TriggerPrice: tstypes.TriggerPrice{TradingAssetDenom: atom, Rate: rate},
+				Collateral: sdk.Coin{Denom: usdc, Amount: amt}, TradingAsset: atom, Position: tstypes.PerpetualPosition_LONG,
+				Leverage: sdkmath.LegacyNewDec(2), TakeProfitPrice: sdkmath.LegacyNewDec(3), StopLossPrice: sdkmath.LegacyZeroDec(), PoolId: 1})
+			if err != nil {
+				return 0, err
+			}
+			return r.OrderId, nil
+		}
+		r, err := s.srv.CreateSpotOrder(s.ctx, &tstypes.MsgCreateSpotOrder{OrderType: tstypes.SpotOrderType_LIMITSELL, OrderPrice: tstypes.OrderPrice{BaseDenom: atom, QuoteDenom: usdc, Rate: rate},
+			OrderAmount: sdk.Coin{Denom: atom, Amount: amt}, OwnerAddress: who.String(), OrderTargetDenom: usdc})
+		if err != nil {
+			return 0, err
+		}
+		return r.OrderId, nil
+	}
+	cancel := func(who sdk.AccAddress, id uint64) error {
+		if perp {
+			_, err := s.srv.CancelPerpetualOrder(s.ctx, &tstypes.MsgCancelPerpetualOrder{OwnerAddress: who.String(), OrderId: id})
+			return err
+		}
+		_, err := s.srv.CancelSpotOrder(s.ctx, &tstypes.MsgCancelSpotOrder{OwnerAddress: who.String(), OrderId: id})
+		return err
+	}
+	escrow := func(id uint64) sdk.AccAddress {
+		if perp {
+			return tstypes.GetPerpOrderAddress(id)
+		}
+		return tstypes.GetSpotOrderAddress(id)
+	}
+	ownerOf := func(id uint64) (string, bool) {
+		if perp {
+			o, found := s.k.GetPendingPerpetualOrder(s.ctx, id)
+			return o.OwnerAddress, found
+		}
+		o, found := s.k.GetPendingSpotOrder(s.ctx, id)
+		return o.OwnerAddress, found
+	}
+	id1, err := mk(owner, a1)
+	if err != nil {
+		return
+	}
+	id2, err := mk(other, a2)
+	if err != nil {
+		return
+	}
+	vrf.Assert(cancel(owner, id1) == nil, "C20: the owner can always cancel")
+	id3, err := mk(owner, a3)
+	if err != nil {
+		return
+	}
+	vrf.Cover("done")
+	vrf.Assert(id3 != id2, "C20 isolation: a new order never takes the id (escrow account, store record) of an order that is still pending")
+	who, found := ownerOf(id2)
+	vrf.Assert(found && who == other.String(), "C20 isolation: the other owner's pending order is still his after someone else's cancel and new order")
+	vrf.Assert(s.w.BalOf(escrow(id2), denom).Equal(a2), "C20 isolation: the other order's escrow still holds exactly its amount")
+	vrf.Assert(cancel(owner, id3) == nil, "C20: the owner can cancel his new order")
+	vrf.Assert(s.w.BalOf(owner, denom).Equal(a1.Add(a3)), "C20 isolation: the owner gets back exactly what he escrowed, no more")
+	vrf.Assert(cancel(other, id2) == nil, "C20: the other owner can still cancel his order")
+	vrf.Assert(s.w.BalOf(other, denom).Equal(a2), "C20 isolation: the other owner gets his full escrow back")
 }
